@@ -29,7 +29,7 @@ add('n3', 'rankv_fwd_n3', 11, 'crate::build::h_rank_slots(N, true)', True)
 # C18 with the oracle inside the queue stub (asserted at the violating pop): a smaller unwind bound suffices
 add('n3', 'rankc_fwd_n3', 8, 'crate::build::h_rank_slots(N, true)', 'c18')
 add('n3', 'rankc_n3', 8, 'crate::build::h_rank(N)', 'c18')
-# experiment: the smallest size at which walking every path exceeds n pops (needs ~58 GB; not registered in any tier)
+# the smallest size at which walking every path exceeds n pops: found F2; needs ~35 GB and ~45 min (thorough tier, runs alone)
 add('n5', 'rankc_fwd_n5', 16, 'crate::build::h_rank_slots(N, true)', 'c18')
 add('n5', 'rank_fwd_n5', 18, 'crate::build::h_rank_slots(N, true)', True)
 for n in (2, 3):
@@ -124,5 +124,5 @@ def models(body):
     return ['daggy', 'smallvec'] if body.split('::')[1] == 'build' else ['daggy', 'tokio']
 
 
-json.dump([{'name': n, 'features': c, 'unwind': u, 'stubs': s, 'body': b, 'deps': deps(b, s), 'models': models(b)} for c, n, u, s, b in H], open('/verif/harness/harnesses.json', 'w'), indent=0)
+json.dump([dict({'name': n, 'features': c, 'unwind': u, 'stubs': s, 'body': b, 'deps': deps(b, s), 'models': models(b)}, **({'mem_kb': 58000000, 'cap_s': 4500} if n.endswith('_n5') else {})) for c, n, u, s, b in H], open('/verif/harness/harnesses.json', 'w'), indent=0)
 print(len(H), 'harnesses')
